@@ -730,5 +730,6 @@ def execute(sc, prop):
                 % (pid, k, env.log[k:k + 3], env_ref.log[k:k + 3], len(env.log), len(env_ref.log)))
     npairs = sum(len(a) for lst in interp.nb.values() for a in lst)
     shape = (pid, sim, [pa.get_number_of_particles() for pa in arrays], sc.get('cond', [])[:8], sc.get('thresh'), tt, dt)
-    return dict(violations=viol, digest=digest(repr(shape)), nontrivial=npairs > 0, faults={}, probes=probes, sim=1.0,
+    return dict(violations=viol, digest=digest(repr(shape)), nontrivial=npairs > 0,
+                faults=({'simulated_loop_schedule': 1} if sim else {}), probes=probes, sim=1.0,
                 inconclusive=False, stratum='program %d' % pid)
